@@ -4,6 +4,7 @@
 //   rcast <wrap> <srcty> <dstty> <off|null>  -> ok <addr>  sandbox_reinterpret_cast between pointer types
 //   ccast <wrap> <off|null>           -> ok <addr>          sandbox_const_cast<int*>(const int*)
 //   cbopq <v>                         -> ok guest=<g>       a callback returning tainted_opaque<long>
+#include <cmath>
 #include "vtypes.hpp"
 using namespace vh;
 using rlbox::tainted;
@@ -42,7 +43,65 @@ template<typename To, typename Fr, bool VOL> static std::string scast(i128 v)
     return "ok " + to_dec(as_math(r.UNSAFE_unverified()));
   }
 }
+// --- casts that involve a floating-point type: values travel as exact dyadic rationals  m * 2^e  (m odd) ---
+using FTypes = TL<float, double, long double>;
+static const char* const FNames[] = { "float", "double", "ldouble" };
+constexpr size_t NF = FTypes::n;
+template<typename F> static std::string show_dy(F x)
+{
+  if (x == 0) return "0 0";
+  int e; long double m = frexpl((long double)x, &e);     // |m| in [0.5, 1): at most 64 significant bits
+  uint64_t mi = (uint64_t)ldexpl(fabsl(m), 64); e -= 64;
+  while ((mi & 1) == 0) { mi >>= 1; e++; }
+  return std::string(x < 0 ? "-" : "") + std::to_string(mi) + " " + std::to_string(e);
+}
+template<typename To, typename Fr, bool VOL> static To cast_one(Fr v)
+{
+  if (g_sb.get_sandbox_impl()->brk > (1u << 15)) g_sb.get_sandbox_impl()->brk = 16;
+  if constexpr (VOL) {
+    auto p = g_sb.malloc_in_sandbox<Fr>(); *p = v;
+    auto r = rlbox::sandbox_static_cast<To>(*p);
+    static_assert(std::is_same_v<decltype(r), tainted<To, SbxA>>);
+    return r.UNSAFE_unverified();
+  } else {
+    tainted<Fr, SbxA> x = v;
+    auto r = rlbox::sandbox_static_cast<To>(x);
+    static_assert(std::is_same_v<decltype(r), tainted<To, SbxA>>);
+    return r.UNSAFE_unverified();
+  }
+}
+// integer -> floating point
+template<typename To, typename Fr, bool VOL> static std::string scast_if(i128 v, int)
+{
+  if (!representable<Fr>(v)) return "badinput";
+  return "ok " + show_dy<To>(cast_one<To, Fr, VOL>((Fr)v));
+}
+// floating point (num / 2^k, exactly representable in Fr) -> integer; the caller only asks for in-range results
+template<typename To, typename Fr, bool VOL> static std::string scast_fi(i128 num, int k)
+{
+  Fr x = std::ldexp((Fr)num, -k);
+  if ((i128)std::ldexp(x, k) != num) return "badinput";
+  return "ok " + to_dec(as_math(cast_one<To, Fr, VOL>(x)));
+}
+template<typename To, typename Fr, bool VOL> static std::string scast_ff(i128 num, int k)
+{
+  Fr x = std::ldexp((Fr)num, -k);
+  if ((i128)std::ldexp(x, k) != num) return "badinput";
+  return "ok " + show_dy<To>(cast_one<To, Fr, VOL>(x));
+}
 using F1 = std::string (*)(i128);
+using F2 = std::string (*)(i128, int);
+static F2 g_if[NF][NT][2], g_fi[NT][NF][2], g_ff[NF][NF][2];
+template<size_t I, size_t J> static void fillf_cell()
+{
+  using Fl = nth_t<I, FTypes>; using In = nth_t<J, Types>;
+  g_if[I][J][0] = &scast_if<Fl, In, false>; g_if[I][J][1] = &scast_if<Fl, In, true>;
+  g_fi[J][I][0] = &scast_fi<In, Fl, false>; g_fi[J][I][1] = &scast_fi<In, Fl, true>;
+}
+template<size_t I, size_t J> static void fillff_cell() { using A = nth_t<I, FTypes>; using B = nth_t<J, FTypes>; g_ff[I][J][0] = &scast_ff<A, B, false>; g_ff[I][J][1] = &scast_ff<A, B, true>; }
+template<size_t I, size_t... Js> static void fillf_row(std::index_sequence<Js...>) { (fillf_cell<I, Js>(), ...); }
+template<size_t I, size_t... Js> static void fillff_row(std::index_sequence<Js...>) { (fillff_cell<I, Js>(), ...); }
+template<size_t... Is> static void fillf_all(std::index_sequence<Is...>) { (fillf_row<Is>(std::make_index_sequence<NT>()), ...); (fillff_row<Is>(std::make_index_sequence<NF>()), ...); }
 static F1 g_opq[NT]; static F1 g_sc[NT][NT][2];
 template<size_t I, size_t J> static void fill_cell() { using To = nth_t<I, Types>; using Fr = nth_t<J, Types>; g_sc[I][J][0] = &scast<To, Fr, false>; g_sc[I][J][1] = &scast<To, Fr, true>; }
 template<size_t I, size_t... Js> static void fill_row(std::index_sequence<Js...>) { g_opq[I] = &opq_int<nth_t<I, Types>>; (fill_cell<I, Js>(), ...); }
@@ -102,6 +161,7 @@ static int32_t gl_see(int32_t x) { g_seen_ret = x; return x; }
 int main()
 {
   fill_all(std::make_index_sequence<NT>());
+  fillf_all(std::make_index_sequence<NF>());
   static vsbx::Library lib("libcasts", { { "gl_see", (void*)&gl_see }, { "gl_callcb", (void*)&gl_callcb } });
   g_sb.create_sandbox(&lib); g_sb1.create_sandbox();
   main_loop([&](const std::vector<std::string>& t) -> std::string {
@@ -129,6 +189,14 @@ int main()
         auto c = t[2].find(':'); int to = ty(t[1]), fr = ty(t[2].substr(c + 1)); bool vol = t[2].substr(0, c) == "tvol";
         if (to < 0 || fr < 0) return "badop";
         return g_sc[to][fr][vol ? 1 : 0](parse_dec(t[3]));
+      }
+      auto fty = [&](const std::string& n) { for (size_t i = 0; i < NF; i++) if (n == FNames[i]) return (int)i; return -1; };
+      if ((t[0] == "scastf" && t.size() == 4) || ((t[0] == "scastfi" || t[0] == "scastff") && t.size() == 5)) {
+        auto c = t[2].find(':'); bool vol = t[2].substr(0, c) == "tvol"; const std::string frn = t[2].substr(c + 1);
+        int k = t.size() == 5 ? atoi(t[4].c_str()) : 0;
+        if (t[0] == "scastf") { int to = fty(t[1]), fr = ty(frn); if (to < 0 || fr < 0) return "badop"; return g_if[to][fr][vol](parse_dec(t[3]), 0); }
+        if (t[0] == "scastfi") { int to = ty(t[1]), fr = fty(frn); if (to < 0 || fr < 0) return "badop"; return g_fi[to][fr][vol](parse_dec(t[3]), k); }
+        int to = fty(t[1]), fr = fty(frn); if (to < 0 || fr < 0) return "badop"; return g_ff[to][fr][vol](parse_dec(t[3]), k);
       }
       if (t[0] == "rcast" && t.size() == 5) {
         bool vol = t[1] == "tvol";
